@@ -187,7 +187,11 @@ func (vc *VC) term(v *Val) Term {
 		return vc.S.FreshConst("iptr", "Int")
 	}
 	if v.T == "" && v.Fn != nil {
-		return vc.S.FreshConst("fnval", "Int")
+		c := vc.S.FreshConst("fnval", "Int")
+		vc.S.DeclareRaw("fn:closure-tag", "(declare-fun closure-tag (Int) Int)")
+		vc.S.Assert(eq("(closure-tag "+c+")", fmt.Sprint(funcTag(QualName(v.Fn)))))
+		v.T = c
+		return c
 	}
 	if v.T == "" {
 		return "0"
@@ -909,4 +913,15 @@ func copySet(m map[string]bool) map[string]bool {
 		}
 	}
 	return o
+}
+
+var funcTags = map[string]int{}
+
+func funcTag(name string) int {
+	if id, ok := funcTags[name]; ok {
+		return id
+	}
+	id := len(funcTags) + 1
+	funcTags[name] = id
+	return id
 }
